@@ -284,7 +284,13 @@ def routeLive (c : Cfg) (r : RouteFact) : Bool :=
   else if startsWith r.src "lib/util/lifted/influx/httpd/" then false
   else c.ext && r.cond = ""
 
-def splitPath (s : String) : List String := s.splitOn "/"
+/-- split at '/', structurally (kernel-reducible, unlike `String.splitOn`). -/
+def splitOnSlash : List Char → List Char → List String
+  | acc, [] => [String.ofList acc.reverse]
+  | acc, c :: rest =>
+    if c = '/' then String.ofList acc.reverse :: splitOnSlash [] rest else splitOnSlash (c :: acc) rest
+
+def splitPath (s : String) : List String := splitOnSlash [] s.toList
 
 def isVar (seg : String) : Bool :=
   match seg.toList with
